@@ -60,6 +60,11 @@ var HostileKeys = []string{"a", "b", "c", "d", "", "a/b", "m~n", "~", "/", "~1",
 var PlainKeys = []string{"a", "b", "c", "d", "e", "f", "k", "0", "1", "zz"}
 var MergeKeys = []string{"a", "b", "c", "d", "x<y", "", "a~1b", "~0", `b\s`, `q"r`, "\x01\x7f", "sensor_reading_01_celsius", "sensor_reading_02_celsius"}
 
+// NearMissKeys are pairwise different member names that a careless comparison takes for equal: letter case, Unicode
+// case folding (long s, Kelvin sign), normalisation (precomposed / decomposed), width, trailing and embedded
+// characters that a C string or a trimmed string loses, numerals spelled differently.
+var NearMissKeys = []string{"name", "Name", "NAME", "na\u017fme", "k", "K", "\u212a", "\u00e9", "e\u0301", "E\u0301", "a", "a ", " a", "a\x00", "a\x00b", "\uff41", "0", "00", "0.0", "\u00df", "ss", "SS"}
+
 var HostileStrings = []string{"", "s", "x<y>&z", "\xe2\x80\xa8\xe2\x80\xa9", "\u2039a\u203a\u203c\u2027\u202a\u2030", "é😀", `q"r\`, "\b\f\n\r\t\x01", "A", "/", "~", "null", "0", "a b", "\u007f", "𝄞", `\u003c`, `x\\u0026`, "[", "{\"", `a\"b`, `\\"`, `["\"]`, "a\ufffdb/", "\ufffd", `\`, `\\`}
 var PlainStrings = []string{"", "s", "A", "hello world", "null", "0", "é", "😀", "a b c"}
 
